@@ -1364,4 +1364,161 @@ Proof.
   destruct (pmulti (fst p)); reflexivity.
 Qed.
 
+Lemma flat_map_flat_map : forall {A B C} (f : B -> list C) (g : A -> list B) l,
+  flat_map f (flat_map g l) = flat_map (fun a => flat_map f (g a)) l.
+Proof. induction l; simpl; auto. rewrite flat_map_app. congruence. Qed.
+
+Lemma shape_post : forall mt free impl ptrs lps,
+  Forall (fun p => PT (snd p)) ptrs -> Forall (fun p => PT (snd p)) lps ->
+  PT (TShape mt free impl ptrs lps).
+Proof.
+  intros mt free impl ptrs lps IHp IHl s i0 s' Ue I E. cbn [desc_ty] in E.
+  set (t := TShape mt free impl ptrs lps) in *.
+  bind_inv E. destruct a as [e1 s1]. bind_inv E. destruct a as [e2 s2].
+  assert (UP : forall x, In x (proper c (ETy t)) -> U x).
+  { intros x Hx. apply (Uclosed _ _ Ue). cbn [ents_e]. unfold t. cbn [ents]. right. exact Hx. }
+  assert (Uu : U (EScalar (uuid_sc c))).
+  { apply UP. apply (shp_uuid mt free impl ptrs lps). destruct (uuid_sc c); simpl; auto. }
+  assert (Umt : U (EObj mt)).
+  { apply UP. apply (shp_mt mt free impl ptrs lps). destruct mt; simpl; auto. }
+  assert (UPt : forall p, In p ptrs -> U (ETy (snd p)) /\ U (ESet (snd p)) /\ U (EObj (psource (fst p)))).
+  { intros p Hp. splits; apply UP; apply (shp_ptr mt free impl ptrs lps p Hp).
+    - right. apply in_or_app. right. apply ents_head.
+    - left; reflexivity.
+    - right. apply in_or_app. left. destruct (psource (fst p)); simpl; auto. }
+  assert (ULp : forall p, In p lps -> U (ETy (snd p)) /\ U (ESet (snd p))).
+  { intros p Hp. splits; apply UP; apply (shp_lp mt free impl ptrs lps p Hp).
+    - right. apply ents_head.
+    - left; reflexivity. }
+  (* the two loops *)
+  assert (HFp : Forall (fun p => forall es s0 s b s', Mid es s0 s -> desc_ptr H c (desc_ty H c) p s = Ok (b, s') ->
+                          Mid (es ++ entl_ptr p) s0 s' /\ b = ptr_elem H c tid' p) ptrs).
+  { apply Forall_forall. intros p Hp. rewrite Forall_forall in IHp. destruct (UPt p Hp) as (A1 & A2 & _).
+    intros; eapply ptr_mid; eauto. }
+  destruct (mapM_gen _ entl_ptr (ptr_elem H c tid') ptrs HFp [] s s e1 s1 (mid_nil _ I) E0) as [M1 ->].
+  assert (HFl : Forall (fun p => forall es s0 s b s', Mid es s0 s -> desc_lprop H c (desc_ty H c) mt p s = Ok (b, s') ->
+                          Mid (es ++ entl_lp p) s0 s' /\ b = lprop_elem H tid' mt p) lps).
+  { apply Forall_forall. intros p Hp. rewrite Forall_forall in IHl. destruct (ULp p Hp) as (A1 & A2).
+    intros; eapply lprop_mid; eauto. }
+  destruct (mapM_gen _ entl_lp (lprop_elem H tid' mt) lps HFl _ s s1 e2 s2 M1 E1) as [M2 ->].
+  cbn [app] in M2.
+  pose proof (mapM_all_ok _ ptr_sane _ _ _ (fun a s r => desc_ptr_sane a s r) E0) as Sane.
+  set (xs := ptr_pairs ptrs ++ lp_pairs mt lps).
+  assert (Exs : map fst xs = somes (map (ptr_elem H c tid') ptrs) ++ map (lprop_elem H tid' mt) lps).
+  { unfold xs. rewrite map_app, ptr_pairs_fst, lp_pairs_fst. reflexivity. }
+  rewrite <- Exs in E.
+  destruct (Uwf _ Ue) as [Wi Wn]. cbn [eid] in Wi. unfold t in Wn. unfold shape_elems in Wn.
+  fold t in Wn. rewrite <- Exs in Wn.
+  eapply (shape_finish_post t mt free impl xs (flat_map entl_ptr ptrs ++ flat_map entl_lp lps)); eauto.
+  - cbn [eid]. unfold t. cbn [tid]. fold t. rewrite <- Exs. reflexivity.
+  - intros z'. cbn [eexp]. unfold t. cbn [expect]. fold t. cbn [eid]. f_equal.
+    rewrite <- (ptr_pairs_exp z' ptrs Sane), <- (lp_pairs_exp z' mt lps), <- map_app, map_map.
+    reflexivity.
+  - unfold xs. apply Forall_app. split.
+    + apply ptr_pairs_forall. intros p e Hp Q. cbn [fst snd].
+      rewrite Forall_forall in Wn. split.
+      * apply Wn. rewrite Exs. apply in_or_app. left. clear -Hp Q. induction ptrs as [|q r IH]; simpl in *; [contradiction|].
+        destruct Hp as [->|Hp]; [rewrite Q; left; reflexivity|].
+        destruct (ptr_elem H c tid' q); [right|]; auto.
+      * unfold ptr_elem in Q. destruct (negb (is_prefix (flt c) (pname (fst p)))); [discriminate|].
+        inversion Q; subst. apply valid_card_of.
+    + unfold lp_pairs. apply Forall_map. apply Forall_forall. intros p Hp. cbn [fst snd].
+      rewrite Forall_forall in Wn. split.
+      * apply Wn. rewrite Exs. apply in_or_app. right. apply in_map. exact Hp.
+      * apply valid_card_of.
+  - unfold xs. apply Forall_app. split.
+    + apply ptr_pairs_forall. intros p e Hp Q. cbn [fst snd]. destruct (UPt p Hp) as (A1 & A2 & A3).
+      rewrite Forall_forall in Sane. pose proof (Sane p Hp) as Sp.
+      unfold ptr_elem in Q. unfold sub_ent_ptr.
+      destruct Sp as [Sp|Sp]; [rewrite Sp in Q; discriminate|].
+      destruct (negb (is_prefix (flt c) (pname (fst p)))); [discriminate|]. inversion Q; subst e. cbn [e_sub e_src].
+      destruct (pmulti (fst p)); cbn [andb] in *.
+      * rewrite Sp. cbn [eid]. auto.
+      * destruct (plink (fst p) && negb (follow c)); cbn [eid]; auto.
+    + unfold lp_pairs. apply Forall_map. apply Forall_forall. intros p Hp. cbn [fst snd].
+      destruct (ULp p Hp) as (A1 & A2). unfold sub_ent_lp, lprop_elem. cbn [e_sub e_src].
+      destruct (pmulti (fst p)); cbn [eid]; auto.
+  - intros _. apply incl_app; [apply (shp_mt mt free impl ptrs lps)|].
+    unfold xs. rewrite flat_map_app. apply incl_app.
+    + apply flat_map_incl. intros x Hx.
+      assert (Q : Forall (fun x => exists p, In p ptrs /\ e_src (fst x) = psource (fst p)) (ptr_pairs ptrs)).
+      { apply ptr_pairs_forall. intros p e Hp Q. exists p. split; auto. cbn [fst].
+        unfold ptr_elem in Q. destruct (negb (is_prefix (flt c) (pname (fst p)))); [discriminate|].
+        inversion Q; reflexivity. }
+      rewrite Forall_forall in Q. destruct (Q x Hx) as (p & Hp & ->).
+      intros y Hy. apply (shp_ptr mt free impl ptrs lps p Hp). right. apply in_or_app. left. exact Hy.
+    + apply flat_map_incl. intros x Hx. unfold lp_pairs in Hx. apply in_map_iff in Hx.
+      destruct Hx as (p & <- & Hp). cbn [fst]. unfold lprop_elem. cbn [e_src].
+      apply (shp_mt mt free impl ptrs lps).
+  - rewrite flat_map_app. apply incl_app; rewrite flat_map_flat_map; apply flat_map_incl; intros p Hp.
+    + apply (shp_entl_ptr mt free impl ptrs lps p Hp).
+    + apply (shp_entl_lp mt free impl ptrs lps p Hp).
+Qed.
+
+Lemma input_post : forall mt free els, PT (TInput mt free els).
+Proof.
+  intros mt free els s i0 s' Ue I E. cbn [desc_ty] in E.
+  set (t := TInput mt free els) in *.
+  assert (Umt : U (EObj mt)).
+  { apply (Uclosed _ _ Ue). cbn [ents_e]. unfold t. cbn [ents]. right. destruct mt; simpl; auto. }
+  apply (shape_finish_post t mt free false [] [] s s i0 s' Ue).
+  - reflexivity.
+  - intros z'. reflexivity.
+  - constructor.
+  - constructor.
+  - intros _. exact Umt.
+  - intros _. cbn [flat_map]. rewrite app_nil_r. unfold t. cbn [proper ents tl]. apply incl_refl.
+  - intros x [].
+  - apply mid_nil; auto.
+  - exact E.
+Qed.
+
+Theorem ty_post : forall t, PT t.
+Proof.
+  induction t using ty_ind'.
+  - intros s0 i s' Ue I E. cbn [desc_ty] in E.
+    assert (Us : U (EScalar s)).
+    { apply (Uclosed _ _ Ue). cbn [ents_e ents]. right. destruct s; simpl; auto. }
+    destruct (scalar_post _ _ _ _ Us I E) as [-> P]. split; auto.
+    eapply post_weaken; [| |exact P]; [reflexivity|]. cbn [ents_e ents]. apply incl_tl, incl_refl.
+  - apply tuple_post; auto.
+  - apply array_post; auto.
+  - apply range_post; auto.
+  - apply multirange_post; auto.
+  - apply shape_post; auto.
+  - apply input_post.
+Qed.
+
+Lemma last_some : forall {A} (l : list A) d, nth_error l (length l - 1) = Some d -> l <> [] ->
+  last (map Some l) None = Some d.
+Proof.
+  induction l as [|a l IH]; intros d E Hn; [contradiction|].
+  destruct l as [|b l]; simpl in *.
+  - inversion E; reflexivity.
+  - apply IH; [|discriminate]. simpl. rewrite PeanoNat.Nat.sub_0_r in *. exact E.
+Qed.
+
+(* sertypes.describe followed by sertypes.parse *)
+Theorem describe_parse : forall t b i,
+  U (ETy t) -> describe H c t = Ok (b, i) ->
+  i = tid' t /\ exists z, parse c b = Some (expect H c z t).
+Proof.
+  intros t b i Ue E. unfold describe in E. bind_inv E. destruct a as [i0 s]. bind_inv E. inversion E; subst b i. clear E.
+  destruct (ty_post t st0 i0 s Ue inv_st0 E0) as [-> (I & P & Hi & B & L & A)]. split; auto.
+  destruct (L ltac:(simpl; auto)) as (ns & n & En & Eid).
+  unfold stream in E1. rewrite A in E1. cbn [anno st0 map ocat] in E1.
+  destruct (ocat (map (ser c) (nodes s))) as [b1|] eqn:Q; [|discriminate]. inversion E1; subst a. clear E1.
+  rewrite app_nil_r. rewrite (parse_stream c (nodes s) b1 (inv_wf _ I) Q).
+  destruct (inv_ds _ I) as (ds & D & R). unfold ds_of in D. rewrite D.
+  exists (hd0 ds).
+  pose proof (inv_len _ _ I D) as Ld. pose proof (inv_ids _ I) as Ids. rewrite En, map_app in Ids. cbn [map] in Ids.
+  assert (Hk : nth_error (pos s) (length ds - 1) = Some (eid' (ETy t))).
+  { rewrite Ld, <- Ids, app_length. cbn [length]. rewrite PeanoNat.Nat.add_sub, nth_error_app2 by lia.
+    rewrite PeanoNat.Nat.sub_diag. cbn. rewrite Eid. reflexivity. }
+  destruct (R _ _ Hk) as (e & Ue' & Ee & Hn).
+  apply last_some.
+  - rewrite Hn. f_equal. apply (IdDet e (ETy t)); auto.
+  - intro Z. subst ds. rewrite <- Ids, app_length in Ld. simpl in Ld. lia.
+Qed.
+
 End Graph.
